@@ -5,15 +5,18 @@
 // Several real clusters (cluster.NewCluster with a health_check section -> healthcheck.CreateHealthCheck) contain hosts
 // of the same addresses; the host objects of an address share its health word, every cluster has its own session
 // checker (own counters) per address. An operation list drives them through the exported paths only:
-//   h<k>=<addrs>  cluster k: UpdateHosts(NewHostSet(fresh host objects)) -> SetHealthCheckerHostSet -> startCheck / stopCheck
-//   x<k>          cluster k: StopHealthChecking() -> healthChecker.Stop -> stopCheck of every listed host
-//   n<k>=<u>.<h>  cluster k is replaced (cluster update): StopHealthChecking() of the old one, NewCluster with the new thresholds
-//   r<k><a><sft>  the session checker cluster k keeps for address a (the REAL one startCheck made; verif hook VerifCheckerOf)
-//                 completes a check: HandleSuccess / HandleFailure(active) / HandleFailure(network) called directly — the
-//                 checker's own timers are parked (initial delay one hour). Nothing is delivered to a missing / stopped one.
-//   o<a>+ / o<a>- another condition's writer sets / clears FAILED_OUTLIER_CHECK through its own host object
+//
+//	h<k>=<addrs>  cluster k: UpdateHosts(NewHostSet(fresh host objects)) -> SetHealthCheckerHostSet -> startCheck / stopCheck
+//	x<k>          cluster k: StopHealthChecking() -> healthChecker.Stop -> stopCheck of every listed host
+//	n<k>=<u>.<h>  cluster k is replaced (cluster update): StopHealthChecking() of the old one, NewCluster with the new thresholds
+//	r<k><a><sft>  the session checker cluster k keeps for address a (the REAL one startCheck made; verif hook VerifCheckerOf)
+//	              completes a check: HandleSuccess / HandleFailure(active) / HandleFailure(network) called directly — the
+//	              checker's own timers are parked (initial delay one hour). Nothing is delivered to a missing / stopped one.
+//	o<a>+ / o<a>- another condition's writer sets / clears FAILED_OUTLIER_CHECK through its own host object
+//
 // After every operation: the word of every address, the callback(s) delivered, every cluster's localProcessHealthy.
-//   C16 lc <u:h,…> <w0,w1,…> <ops> => <w0,w1,…:cb:l0,l1,…;…>
+//
+//	C16 lc <u:h,…> <w0,w1,…> <ops> => <w0,w1,…:cb:l0,l1,…;…>
 package c16
 
 import (
@@ -590,8 +593,16 @@ func runLifecycleKind(c *hx.Ctx) {
 		{kind: 'x', k: 0}, {kind: 'x', k: 1},
 		{kind: 'r', k: 0, a: 0, r: 's'}, {kind: 'r', k: 0, a: 0, r: 'f'}, {kind: 'r', k: 1, a: 0, r: 's'}, {kind: 'r', k: 1, a: 0, r: 'f'},
 	}
-	L := c.N(3, 5)
-	for _, th := range [][2]uint32{{1, 1}, {2, 1}, {1, 2}, {2, 2}} {
+	L := c.N(3, 4)
+	deep := -1 // thorough: one threshold pair per seed gets length 5
+	if c.Thorough() {
+		deep = c.Rng.Intn(4)
+	}
+	for ti, th := range [][2]uint32{{1, 1}, {2, 1}, {1, 2}, {2, 2}} {
+		L := L
+		if ti == deep {
+			L = 5
+		}
 		both := []lcOp{{kind: 'h', k: 0, hs: []int{0}}, {kind: 'h', k: 1, hs: []int{0}}}
 		prefixes := [][]lcOp{
 			nil,
@@ -612,6 +623,34 @@ func runLifecycleKind(c *hx.Ctx) {
 			}
 			// every list of length exactly L (all shorter ones are prefixes: the trace holds every intermediate state)
 			rec(nil, L)
+		}
+	}
+	// (1b) exhaustive, ONE cluster owning the address alone (the exactness clause applies): add / remove / stop / success /
+	// failure, every list of length 4 (thorough 6) after: nothing; the checker one failure short of / at the threshold
+	alpha1 := []lcOp{
+		{kind: 'h', k: 0, hs: []int{0}}, {kind: 'h', k: 0}, {kind: 'x', k: 0},
+		{kind: 'r', k: 0, a: 0, r: 's'}, {kind: 'r', k: 0, a: 0, r: 'f'},
+	}
+	L1 := c.N(4, 6)
+	for _, th := range [][2]uint32{{1, 1}, {2, 1}, {1, 2}, {2, 2}, {3, 2}} {
+		one := []lcOp{{kind: 'h', k: 0, hs: []int{0}}}
+		prefixes := [][]lcOp{
+			nil,
+			append(append([]lcOp{}, one...), lcFail(0, 0, int(th[0])-1)...),
+			append(append([]lcOp{}, one...), lcFail(0, 0, int(th[0]))...),
+		}
+		for _, pre := range prefixes {
+			var rec func(cur []lcOp, depth int)
+			rec = func(cur []lcOp, depth int) {
+				if depth == 0 {
+					lcEmit(c, lcCase{cfg: [][2]uint32{th}, words: []uint64{0}, ops: append(append([]lcOp{}, pre...), cur...)}, st, "exhaustive1")
+					return
+				}
+				for _, o := range alpha1 {
+					rec(append(cur, o), depth-1)
+				}
+			}
+			rec(nil, L1)
 		}
 	}
 	// (2) seeded scenarios + random operation lists, length <= 12, 2-3 clusters, 1-3 addresses, thresholds 0..3
